@@ -68,6 +68,9 @@ theorem step_ok {st : State} {qs : List Spec.Queue} (hi : Inv st) (hr : Rel qs s
     · simp only [h, if_false]
       exact updFrom_ok (fun sp spd => spd ++ sp) hi hr hv hw (fun b hb sp spd d hm hd => (prepend_ok hb d).mono
         (fun _ h => ⟨h.1, h.2 ▸ hd.append hm⟩))
+  | prependSub v off len =>
+    exact upd_ok (fun sp => (sp.drop off).take len ++ sp) hi hr hw (fun b hb sp hm =>
+      (prependSubClamped_ok hb off len).mono (fun _ h => ⟨h.1, h.2 ▸ ((hm.drop off).take len).append hm⟩))
   | appendData v d =>
     exact upd_ok (fun sp => sp ++ bytesOf d) hi hr hw (fun b hb sp hm => (append_ok hb (bytesOf d)).mono
       (fun _ h => ⟨h.1, h.2 ▸ hm.append (Match.rfl _)⟩))
@@ -155,6 +158,7 @@ theorem step_wf {st st' : State} {op : Op} (h : step st op = some st') : WFOp st
     by_cases hvw : v = w
     · subst hvw; simp only [if_true] at h; exact ⟨upd_some h, upd_some h⟩
     · simp only [hvw, if_false] at h; exact updFrom_some h
+  | prependSub v off len => exact upd_some h
   | appendData v d => exact upd_some h
   | appendBuf v w =>
     simp only [step] at h
